@@ -107,6 +107,8 @@ fn in_rich(rng: &mut Rng, n: usize, wild: bool) -> String {
 			0 => { let k = stub_len + 4 + 2 * n; words[k] = RICH ^ 1; },          // no Rich marker
 			1 => { words[stub_len] ^= 0x100; },                                    // no DanS
 			2 => if n >= 2 { let j = stub_len + 4 + 2 * rng.below(n as u64 - 1) as usize; words[j] = DANS ^ key; words[j + 1] = key; words[j + 2] = key; words[j + 3] = key; }, // header pattern inside the records
+			// header pattern at an ODD dword distance from the Rich marker (the scan steps two dwords: it must be skipped)
+			3 | 4 => if n >= 3 { let j = stub_len + 4 + 2 * rng.below(n as u64 - 2) as usize + 1; words[j] = DANS ^ key; words[j + 1] = key; words[j + 2] = key; words[j + 3] = key; },
 			_ => {},
 		}
 	}
@@ -253,7 +255,7 @@ fn in_image(rng: &mut Rng, n: usize, wild: bool, pe64: bool, what: usize) -> Str
 	let mut spec = ImgSpec { pe64, e_lfanew: *rng.pick(&[0x40u32, 0x80]), soh: 0x200, soi: 0x2000, image_base: if pe64 { 0x1_4000_0000 } else { 0x40_0000 }, nrva: 16, dirs, opt_size: 0, nsec_field: 1,
 		secs: vec![Sec { name: *b".data\0\0\0", va: 0x1000, vs: 0x400, prd: 0x200, srd: 0x400, chars: 0xC000_0040 }], checksum: 0, magic: if pe64 { 0x20b } else { 0x10b } };
 	spec.opt_size = spec.std_opt_size();
-	let img = Image { len: 0x600, fill, hdr: spec.header_bytes(), pokes: vec![(0x200 + x as usize, payload)] };
+	let img = Image { len: 0x600, fill, hdr: scrambled_header(&spec, rng), pokes: vec![(0x200 + x as usize, payload)] };
 	format!("{} exp={}", img.encode(), join(&exp, ","))
 }
 
